@@ -2,7 +2,7 @@
   C09 — local-Clifford equivalence of graph states is decided correctly, constructively.
 
   Property theorems only (helper lemmas live in Proofs/GraphOps.lean, Proofs/LC.lean, Proofs/LCSeq{Step,Loop,Term}.lean and
-  Proofs/LC{Comp,Block,Repair}.lean).
+  Proofs/LC{Comp,Block,Repair,Assemble}.lean, Proofs/LCTotal{Ech,Cols,Inv,Basis,R}.lean, Proofs/LCTotal.lean, Proofs/LCGates{,2}.lean, Proofs/LCTableaux{,2}.lean).
 
   What is proved here for every size n and every input (Tier A of DESIGN §4):
     1. local complementation toggles exactly the pairs of distinct neighbours and is an involution; both implementations
@@ -36,12 +36,31 @@
        the decision statement holds in deterministic mode relative to exactly one hypothesis, the completeness of the pair-sum
        shortcut on *connected* graphs (`decides_lc_equivalence_repaired_partial`,
        `shortcut_complete_on_connected_statement` — a claim of the paper, tested exhaustively for connected n ≤ 6, not proved).
+    9. Totality (section 6; Proofs/LCTotal*.lean): the whole-graph algorithm and the repaired function *return* on every input
+       of the quantifier (same size n ≥ 1, deterministic or random mode, every draw) — none of the three internal assertions
+       can fire, the reshape and the exact inverses succeed (`is_lc_equivalent_component_total`, `is_lc_equivalent_total`);
+       the decision theorems are restated without the hypothesis "the function returned"
+       (`is_lc_equivalent_returns_and_is_right_off_the_shortcut`, `is_lc_equivalent_decides_partial`).
+   10. The gates, unconditionally (section 7; Proofs/LCGates.lean, Proofs/LCGates2.lean): for every valid `Q` the gates named
+       by `local_clifford_ops` run on `|A⟩`, `±K_k(B)` lies in the resulting stabilizer group (the symplectic product of
+       `K_k(B)` with the image of `K_i(A)` is equation `(i, k)`; maximality of the group), `groupSign` finds every sign, the `Z`
+       corrections fix them, and the validation of `lc_check` passes: `lc_check` is total, agrees with `is_lc_equivalent`, and
+       its gates map `|A⟩` exactly onto `|B⟩` with or without `validate` (`lc_check_total_and_right`).
+   11. Tableau inputs (section 8; Proofs/LCTableaux.lean): `lc_check` on two stabilizer states, modelled function by function
+       (`lcCheckStates`), returns a total gate list `gates1 + gate_list + inversed_gates2` that maps the first state exactly onto
+       the second (`lc_check_on_tableaux_sound`) — composition of C08's `state_to_graph` soundness with item 10 — and is total on
+       stabilizer states, validation included (`lc_check_on_stabilizer_states_total_and_right`).
   `isLcEquivalent` is the model of `is_lc_equivalent` while the repository is unrepaired and of `_is_lc_equivalent_component`
   afterwards; sections 2–4 are about it in both readings.
 -/
 import GraphiqModel.Proofs.LC
 import GraphiqModel.Proofs.LCSeqTerm
 import GraphiqModel.Proofs.LCRepair
+import GraphiqModel.Proofs.LCAssemble
+import GraphiqModel.Proofs.LCTotalR
+import GraphiqModel.Proofs.LCGates2
+import GraphiqModel.Proofs.LCTableaux
+import GraphiqModel.Proofs.LCTableaux2
 namespace Graphiq.C09
 open Graphiq Graphiq.LC Graphiq.PRow Graphiq.Tab
 
@@ -172,9 +191,10 @@ theorem no_means_not_lc_equivalent (a b : BMat) (mode : Mode) (draws : List Bool
   rw [this] at hval
   exact absurd hval (by decide)
 
-/-- the full decision property as worded: the test answers yes exactly when one graph is reachable from the other by
-    local complementations (false for the code, D14: `decides_lc_equivalence_refuted`; proved on every other run:
-    `decides_lc_equivalence_off_the_shortcut`) -/
+/-- the full decision property as worded, for the whole-graph algorithm (`is_lc_equivalent` before the repair of D14,
+    `_is_lc_equivalent_component` after it): the test answers yes exactly when one graph is reachable from the other by local
+    complementations (false for it on disconnected graphs, D14: `decides_lc_equivalence_refuted`; proved on every other run:
+    `decides_lc_equivalence_off_the_shortcut`; for the repaired `is_lc_equivalent` see section 5) -/
 def decides_lc_equivalence_statement : Prop :=
   ∀ (a b : BMat) (mode : Mode) (draws : List Bool) (out : EqOut), 0 < a.r → a.r = b.r → a.c = a.r → b.c = b.r →
     Simple a.r a.f → Simple b.r b.f → mode ≠ .other → isLcEquivalent a b mode draws = .ok out →
@@ -203,7 +223,8 @@ set_option maxRecDepth 100000 in
 /-- the same for an edge plus an isolated vertex -/
 theorem shortcut_incomplete_K2K1 : answer K2K1 K2K1 = some none := by decide +kernel
 
-/-- hence "never a false no" is *false* for the code as it stands (replayed on the implementation on every run) -/
+/-- hence "never a false no" is *false* for the whole-graph algorithm (replayed on the implementation on every run while it is
+    unrepaired; the repaired `is_lc_equivalent` answers these inputs `yes`: `repaired_2K2_yes`) -/
 theorem never_a_false_no_refuted : ¬ never_a_false_no_statement := by
   intro h
   have hs : Simple 4 twoK2.f := by
@@ -393,7 +414,8 @@ theorem valid_clifford_iff_same_orbit (n : Nat) (A B : Adj) (hn : 0 < n) (hA : S
 /-- **the decision property, proved wherever the code is right**: on every run that says `yes`, and on every run that says
     `no` on the full-rank shortcut or after the exhaustive search (solution space of dimension ≤ 4), the answer is `yes`
     exactly when one graph is reachable from the other by local complementations.  What remains outside is only a `no` on the
-    pair-sum / random paths (dimension ≥ 5), where the code is wrong (D14, `decides_lc_equivalence_refuted`). -/
+    pair-sum / random paths (dimension ≥ 5), where the whole-graph algorithm is wrong on disconnected graphs (D14,
+    `decides_lc_equivalence_refuted`). -/
 theorem decides_lc_equivalence_off_the_shortcut (a b : BMat) (mode : Mode) (draws : List Bool) (out : EqOut)
     (hn : 0 < a.r) (hab : a.r = b.r) (ha : Simple a.r a.f) (hb : Simple b.r b.f)
     (e : isLcEquivalent a b mode draws = .ok out)
@@ -412,8 +434,9 @@ theorem decides_lc_equivalence_off_the_shortcut (a b : BMat) (mode : Mode) (draw
       · rw [hq] at hp; cases hp
       · exact absurd horb (no_means_not_lc_equivalent a b mode draws out hn ha e hq hp)
 
-/-- and the property as worded is *false* for the code as it stands (D14): two disjoint edges compared with themselves are
-    in the same orbit (empty sequence) and are answered `no` -/
+/-- and the property as worded is *false* for the whole-graph algorithm (D14): two disjoint edges compared with themselves are
+    in the same orbit (empty sequence) and are answered `no` — which is why the repaired `is_lc_equivalent` calls it on connected
+    components only -/
 theorem decides_lc_equivalence_refuted : ¬ decides_lc_equivalence_statement := by
   intro h
   have hs : Simple 4 twoK2.f := by
@@ -533,6 +556,25 @@ theorem same_orbit_restricts_to_components (n : Nat) (A B : Adj) (hA : Simple n 
   obtain ⟨w, hw, hwv⟩ := restrict_valid n A B hA hB hcomps v hv hval c hc
   obtain ⟨hpos, hlt, hsa, _⟩ := component_facts n A hA c hc
   exact (valid_clifford_iff_same_orbit c.length _ _ hpos hsa (sub_simple n B hB c hlt)).mp ⟨w, hw, hwv⟩
+
+/-- **LC equivalence is decided component by component** (the mathematical content of the repair, both directions, every n):
+    two graphs are in the same LC orbit iff they have the same connected components as vertex sets and the induced subgraphs
+    on every component are in the same LC orbit.  (⇒ `components_are_lc_invariant`, `same_orbit_restricts_to_components`;
+    ⇐ block-diagonal assembly of one valid local Clifford per component, then the constructive direction on the whole pair.)
+    So the repaired function is complete exactly as far as `_is_lc_equivalent_component` is complete on connected graphs. -/
+theorem same_orbit_iff_componentwise (n : Nat) (A B : Adj) (hn : 0 < n) (hA : Simple n A) (hB : Simple n B) :
+    SameOrbit n A B ↔
+      connectedComponents n A = connectedComponents n B ∧
+        ∀ c ∈ connectedComponents n A, SameOrbit c.length (subAdj A c) (subAdj B c) := by
+  constructor
+  · intro h
+    exact ⟨components_are_lc_invariant n A B hA h, fun c hc => same_orbit_restricts_to_components n A B hA hB h c hc⟩
+  · rintro ⟨hcomps, hsub⟩
+    apply (valid_clifford_iff_same_orbit n A B hn hA hB).mp
+    apply assemble_valid n A B hA hB hcomps
+    intro c hc
+    obtain ⟨_, _, hsa, _⟩ := component_facts n A hA c hc
+    exact lc_equivalent_graphs_have_a_valid_clifford c.length _ _ hsa (hsub c hc)
 
 /-- **a `no` of the repaired function is right whenever it is taken because the component partitions differ, or on the
     full-rank shortcut / after the exhaustive search (dimension ≤ 4) in the failing component** -/
@@ -725,6 +767,228 @@ set_option maxRecDepth 100000 in
 /-- non-vacuity (kernel-checked): for two disjoint edges compared with themselves the checked path succeeds with a Hadamard
     on every qubit … which maps `|2K₂⟩` to itself (`H ⊗ H` fixes the two-qubit graph state) -/
 theorem lc_check_2K2_repaired : checkAnswerR twoK2 twoK2 = some (true, [("H", 0), ("H", 1), ("H", 2), ("H", 3)]) := by
+  decide +kernel
+
+/-! ## 6. Totality: `is_lc_equivalent` returns (no internal assertion can fire)
+
+  Every decision theorem above has a hypothesis `… = .ok out` ("the function returned").  It is discharged here for every
+  input of the property's quantifier (helper lemmas: Proofs/LCTotal{Ech,Cols,Inv,Basis,R}.lean, Proofs/LCTotal.lean, Proofs/LCGates{,2}.lean, Proofs/LCTableaux{,2}.lean). -/
+
+/-- **the whole-graph algorithm (`is_lc_equivalent` before the repair of D14, `_is_lc_equivalent_component` after it) is
+    total**: for two adjacency matrices of the same size `n ≥ 1`, in deterministic or random mode and for every value of the
+    random draws, it returns.  None of its three assertions can fire: the non-zero rows of `row_reduction`'s output are exactly
+    the `rank` pivot rows (echelon form, proved by loop invariants); `_col_finder` returns exactly the `4n − rank` non-pivot
+    columns; the pivot-column matrix is upper unitriangular, so the exact GF(2) inverse exists and is two-sided; and every
+    vector spliced together by `_solution_basis_finder` has `4n` entries and solves the reduced system (`A(A⁻¹b) + b = 0`).
+    The rank is at least 1 because equation `(0, 0)` has the coefficient 1 at `b_0`. -/
+theorem is_lc_equivalent_component_total (a b : BMat) (mode : Mode) (draws : List Bool) (hn : 0 < a.r) (hab : a.r = b.r)
+    (hmode : mode ≠ .other) : ∃ out, isLcEquivalent a b mode draws = .ok out :=
+  isLcEquivalent_total a b mode draws hn hab hmode
+
+/-- **the repaired `is_lc_equivalent` is total** on simple graphs of equal size (every component is non-empty, so the theorem
+    above applies to every induced pair) -/
+theorem is_lc_equivalent_total (a b : BMat) (mode : Mode) (draws : List (List Bool)) (hab : a.r = b.r)
+    (ha : Simple a.r a.f) (hmode : mode ≠ .other) : ∃ out, isLcEquivalentR a b mode draws = .ok out :=
+  isLcEquivalentR_total a b mode draws hab ha hmode
+
+/-- hence **the repaired function returns an answer and the answer is right, off the shortcut**: for simple graphs of equal size
+    `n ≥ 1`, both modes: it returns some `out`; a `yes` always means "same LC orbit"; and whenever no component was answered `no`
+    on the pair-sum / random path, `yes` ⇔ same orbit -/
+theorem is_lc_equivalent_returns_and_is_right_off_the_shortcut (a b : BMat) (mode : Mode) (draws : List (List Bool))
+    (hn : 0 < a.r) (hab : a.r = b.r) (ha : Simple a.r a.f) (hb : Simple b.r b.f) (hmode : mode ≠ .other) :
+    ∃ out, isLcEquivalentR a b mode draws = .ok out ∧ (out.sol.isSome = true → SameOrbit a.r a.f b.f) ∧
+      ((∀ o ∈ out.parts, o.sol = none → o.path = "all-combinations" ∨ o.path = "full-rank") →
+        (out.sol.isSome = true ↔ SameOrbit a.r a.f b.f)) := by
+  obtain ⟨out, e⟩ := is_lc_equivalent_total a b mode draws hab ha hmode
+  refine ⟨out, e, fun hs => ?_, fun hp => decides_lc_equivalence_repaired_off_the_shortcut a b mode draws out hn hab ha hb e hp⟩
+  cases hq : out.sol with
+  | none => rw [hq] at hs; cases hs
+  | some q => exact repaired_yes_means_same_orbit a b mode draws out q hn hab ha hb e hq
+
+/-- and, in deterministic mode, **relative to the completeness of the pair-sum shortcut on connected graphs, the repaired
+    function returns and decides LC equivalence** — the property as worded, with the single remaining hypothesis -/
+theorem is_lc_equivalent_decides_partial (hshort : shortcut_complete_on_connected_statement) (a b : BMat)
+    (draws : List (List Bool)) (hn : 0 < a.r) (hab : a.r = b.r) (ha : Simple a.r a.f) (hb : Simple b.r b.f) :
+    ∃ out, isLcEquivalentR a b .det draws = .ok out ∧ (out.sol.isSome = true ↔ SameOrbit a.r a.f b.f) := by
+  obtain ⟨out, e⟩ := is_lc_equivalent_total a b .det draws hab ha (by decide)
+  exact ⟨out, e, decides_lc_equivalence_repaired_partial hshort a b draws out hn hab ha hb e⟩
+
+/-- `find_lc_operations` over the repaired function returns a correct sequence exactly when the graphs are LC-equivalent … on
+    every run off the shortcut (with fuel `n + 1` for the two loops of `lc_graph_operations`) -/
+theorem find_lc_operations_returns_iff_yes (a b : BMat) (mode : Mode) (draws : List (List Bool))
+    (hn : 0 < a.r) (hab : a.r = b.r) (ha : Simple a.r a.f) (hb : Simple b.r b.f) (hmode : mode ≠ .other) :
+    ∃ out, isLcEquivalentR a b mode draws = .ok out ∧
+      (out.sol.isSome = true ↔ ∃ seq, findLcOperationsR (a.r + 1) a b mode draws = .ok seq) := by
+  obtain ⟨out, e⟩ := is_lc_equivalent_total a b mode draws hab ha hmode
+  refine ⟨out, e, fun hs => ?_, fun ⟨seq, hseq⟩ => ?_⟩
+  · exact (find_lc_operations_correct_repaired (a.r + 1) a b mode draws hn hab ha hb).2 out e hs (Nat.le_refl _)
+  · unfold findLcOperationsR at hseq
+    rw [e] at hseq
+    dsimp only at hseq
+    cases hq : out.sol with
+    | none => rw [hq] at hseq; cases hseq
+    | some q => rfl
+
+/-! ## 7. The gates, unconditionally: no appeal to the validation inside `lc_check`
+
+  Section 4 covers the *checked* path (`lc_check_gates_map_the_state`: if the validation passes, the gates are right).  Here
+  the validation is proved to pass, and `_phase_correction` (modelled at specification level: the `Z` gates on the qubits whose
+  generator carries the sign `−`) is proved to fix every sign: for **every** valid `Q` the gate list maps `|A⟩` exactly onto
+  `|B⟩`.  Helper lemmas: Proofs/LCGates.lean, Proofs/LCGates2.lean (on top of the group-level semantics of C07). -/
+
+/-- **the gates of any valid local Clifford map the first graph state onto the second up to signs**: running the gates that
+    `local_clifford_ops(Q)` names (each block's word, rightmost factor first) on the graph-state tableau of `A` never fails,
+    gives a valid tableau with Hermitian stabilizers, and `K_k(B)` or `−K_k(B)` lies in its stabilizer group for every `k` —
+    because the symplectic product of `K_k(B)` with the image of `K_i(A)` *is* equation `(i, k)` of the linear system -/
+theorem gates_of_a_valid_clifford_map_the_state_up_to_signs (n : Nat) (A B : Adj) (hA : Simple n A) (hB : Simple n B)
+    (q : List Bool) (hq : ∀ j k, j < n → k < n → equation n A B (vget q) j k = false) (hv : isValidClifford n q = true) :
+    ∃ t, runGates (graphTab n A) (qGates n q) = .ok t ∧ t.n = n ∧ t.Valid ∧ t.StabReal ∧
+      ∀ k, k < n → TabSpec.Grp t (graphGen B k) ∨ TabSpec.Grp t (TabSpec.negate (graphGen B k)) :=
+  gates_map_state_up_to_signs n A B hA hB q hq hv
+
+/-- **… and with the phase correction exactly**: the signs are all found, the `Z` corrections are the phase correction, the
+    total gate list runs, and the resulting tableau is the graph state of `B` with every sign `+` (`isGraphState`, i.e. every
+    `+K_k(B)` is in the stabilizer group: `lc_check_gates_map_the_state`) -/
+theorem gates_with_phase_correction_map_the_state (n : Nat) (A B : Adj) (hA : Simple n A) (hB : Simple n B)
+    (q : List Bool) (hq : ∀ j k, j < n → k < n → equation n A B (vget q) j k = false) (hv : isValidClifford n q = true) :
+    ∃ t1 zs t2, runGates (graphTab n A) (qGates n q) = .ok t1 ∧ phaseCorrection t1 B = some zs ∧
+      runGates (graphTab n A) (qGates n q ++ zs) = .ok t2 ∧ isGraphState t2 B = true :=
+  converter_core n A B hA hB q hq hv
+
+/-- **`lc_check` is total and agrees with `is_lc_equivalent`, with or without validation** (repaired function): on simple
+    graphs of equal size it returns `(True, gates)` exactly when `is_lc_equivalent` says yes — the assertion of
+    `converter_gate_list`, the warning of the validation and every exception are excluded — and `(False, [])` otherwise; after a
+    `yes` the gates are those of the returned `Q` followed by `Z` corrections, and they transform the graph state of `A`
+    exactly into the graph state of `B` -/
+theorem lc_check_total_and_right (a b : BMat) (validate : Bool) (hab : a.r = b.r) (ha : Simple a.r a.f)
+    (hb : Simple b.r b.f) :
+    ∃ out, isLcEquivalentR a b .det [] = .ok out ∧
+      ((out.sol = none ∧ lcCheckR a b validate = .ok (false, [])) ∨
+       (∃ s zs, out.sol = some s ∧ lcCheckR a b validate = .ok (true, qGates a.r s ++ zs) ∧
+          ∃ t, runGates (graphTab a.r a.f) (qGates a.r s ++ zs) = .ok t ∧ t.n = a.r ∧ t.Valid ∧
+            ∀ k, k < a.r → InSpan t.n t.n t.stab (graphGen b.f k))) := by
+  obtain ⟨out, e⟩ := is_lc_equivalent_total a b .det [] hab ha (by decide)
+  refine ⟨out, e, ?_⟩
+  cases hs : out.sol with
+  | none => exact Or.inl ⟨rfl, lcCheckR_of_no a b out e hs validate⟩
+  | some s =>
+    obtain ⟨zs, _, hc⟩ := lcCheckR_of_yes a b out s hab ha hb e hs
+    refine Or.inr ⟨s, zs, rfl, hc validate, ?_⟩
+    exact lc_check_gates_map_the_state_repaired a b _ ha (hc true)
+
+/-- the same for the whole-graph algorithm (`lc_check` before the repair of D14) -/
+theorem lc_check_total_and_right_unrepaired (a b : BMat) (validate : Bool) (hn : 0 < a.r) (hab : a.r = b.r)
+    (ha : Simple a.r a.f) (hb : Simple b.r b.f) (out : EqOut) (s : List Bool)
+    (e : isLcEquivalent a b .det [] = .ok out) (hs : out.sol = some s) :
+    ∃ zs, lcCheck a b validate = .ok (true, qGates a.r s ++ zs) ∧
+      ∃ t, runGates (graphTab a.r a.f) (qGates a.r s ++ zs) = .ok t ∧ t.n = a.r ∧ t.Valid ∧
+        ∀ k, k < a.r → InSpan t.n t.n t.stab (graphGen b.f k) := by
+  obtain ⟨zs, _, hc⟩ := lcCheck_of_yes a b out s hn hab ha hb e hs
+  exact ⟨zs, hc validate, lc_check_gates_map_the_state a b _ ha (hc true)⟩
+
+/-! ## 8. Tableau inputs: `lc_check` on two stabilizer states
+
+  `lc_check(state1, state2)` converts both states with `state_to_graph` (property C08), runs `converter_gate_list` on the two
+  graphs, and returns `gates1 + gate_list + inversed_gates2` (`gates2` reversed, `P ↔ P_dag`).  C08 proves that `gates_i` maps
+  `state_i` onto `|graph_i⟩`; section 7 proves that `gate_list` maps `|graph1⟩` onto `|graph2⟩`; the composition
+  (Proofs/LCTableaux.lean, images of signed groups under gate lists) gives the statement for tableaux.  The assembly of the three
+  lists itself (three list operations of the Python) is compared per input by the harness oracle. -/
+
+/-- **the total gate list of `lc_check` maps the first stabilizer state exactly onto the second** (every n, every pair of
+    stabilizer tableaux on which `state_to_graph` returns — by C08 `state_to_graph_returns_iff_state`: every stabilizer state):
+    with `(g1, G1) = state_to_graph(state1)`, `(g2, G2) = state_to_graph(state2)` and `lc_check(g1, g2) = (True, L)`, running
+    `G1 ++ L ++ reversed(G2 with P ↔ P_dag)` on `state1` gives a tableau that generates exactly the signed stabilizer group of
+    `state2` -/
+theorem lc_check_on_stabilizer_states_maps_the_state (t1 t2 : STab) (hreal1 : ∀ i, i < t1.n → (t1.row i).ip = false)
+    (hreal2 : ∀ i, i < t2.n → (t2.row i).ip = false) (hn : t1.n = t2.n) (g1 g2 : BMat) (G1 G2 : List Gate)
+    (e1 : S2G.stateToGraph t1 = .ok (g1, G1)) (e2 : S2G.stateToGraph t2 = .ok (g2, G2))
+    (validate : Bool) (L : List (String × Nat)) (hL : lcCheckR g1 g2 validate = .ok (true, L)) :
+    STab.SpanEq (t1.runCircuit (G1 ++ L.map toGate ++ revCirc G2)) t2 :=
+  lc_check_tableaux t1 t2 hreal1 hreal2 hn g1 g2 G1 G2 e1 e2 validate L hL
+
+/-- and the decision on stabilizer states is the decision on their graphs: `lc_check` on the two graphs returns, and says `True`
+    exactly when `is_lc_equivalent` does on the graphs `state_to_graph` chose -/
+theorem lc_check_on_stabilizer_states_decides (t1 t2 : STab) (hreal1 : ∀ i, i < t1.n → (t1.row i).ip = false)
+    (hreal2 : ∀ i, i < t2.n → (t2.row i).ip = false) (hn : t1.n = t2.n) (g1 g2 : BMat) (G1 G2 : List Gate)
+    (e1 : S2G.stateToGraph t1 = .ok (g1, G1)) (e2 : S2G.stateToGraph t2 = .ok (g2, G2)) (validate : Bool) :
+    ∃ out, isLcEquivalentR g1 g2 .det [] = .ok out ∧
+      ((out.sol = none ∧ lcCheckR g1 g2 validate = .ok (false, [])) ∨
+       (∃ L, out.sol.isSome = true ∧ lcCheckR g1 g2 validate = .ok (true, L) ∧
+          STab.SpanEq (t1.runCircuit (G1 ++ L.map toGate ++ revCirc G2)) t2)) := by
+  have hr1 := stateToGraphWith_r _ t1 g1 G1 e1
+  have hr2 := stateToGraphWith_r _ t2 g2 G2 e2
+  obtain ⟨_, _, sym1, irr1⟩ := stateToGraphWith_sound S2G.gf2InvF t1 hreal1 g1 G1 e1
+  obtain ⟨_, _, sym2, irr2⟩ := stateToGraphWith_sound S2G.gf2InvF t2 hreal2 g2 G2 e2
+  obtain ⟨out, e, h⟩ := lc_check_total_and_right g1 g2 validate (by rw [hr1, hr2, hn])
+    (by rw [hr1]; exact ⟨sym1, irr1⟩) (by rw [hr2]; exact ⟨sym2, irr2⟩)
+  refine ⟨out, e, ?_⟩
+  rcases h with h | ⟨s, zs, hs, hc, _⟩
+  · exact Or.inl h
+  · exact Or.inr ⟨_, by rw [hs]; rfl, hc,
+      lc_check_tableaux t1 t2 hreal1 hreal2 hn g1 g2 G1 G2 e1 e2 validate _ hc⟩
+
+/-- **`lc_check` on two stabilizer tableaux, as modelled function by function** (`lcCheckStates`: `state_to_graph` twice,
+    `converter_gate_list` inside the bare `try`, `gates1 + gate_list + inversed_gates2`, validation by canonical forms; compared
+    exactly with the implementation on every tableau pair of the run): whenever it returns `(True, total)`, with or without
+    validation, `total` maps the first state exactly onto the second -/
+theorem lc_check_on_tableaux_sound (t1 t2 : STab) (hreal1 : ∀ i, i < t1.n → (t1.row i).ip = false)
+    (hreal2 : ∀ i, i < t2.n → (t2.row i).ip = false) (hn : t1.n = t2.n) (validate : Bool) (total : List Gate)
+    (h : lcCheckStates t1 t2 validate = .ok (true, total)) : STab.SpanEq (t1.runCircuit total) t2 :=
+  lcCheckStates_sound t1 t2 hreal1 hreal2 hn validate total h
+
+/-- **`lc_check` on two stabilizer states is total and right** (every n ≥ 1, validation on or off): for two stabilizer states —
+    commuting, real, independent generators, i.e. exactly the inputs on which `state_to_graph` returns
+    (C08 `state_to_graph_returns_iff_state`) — the modelled `lc_check` returns `(False, [])` or `(True, total)`: none of the
+    assertions of `state_to_graph`, `converter_gate_list`, `canonical_form` fires and the validation `Warning` cannot be raised
+    (a gate list maps independent generators to independent generators, `indep_runCircuit`; equal signed groups have equal
+    canonical forms); and after `(True, total)` the gate list maps the first state exactly onto the second -/
+theorem lc_check_on_stabilizer_states_total_and_right (t1 t2 : STab) (hn1 : 0 < t1.n) (hn : t1.n = t2.n)
+    (g1 : t1.Good) (i1 : t1.Indep) (g2 : t2.Good) (i2 : t2.Indep) (validate : Bool) :
+    lcCheckStates t1 t2 validate = .ok (false, []) ∨
+      ∃ total, lcCheckStates t1 t2 validate = .ok (true, total) ∧ STab.SpanEq (t1.runCircuit total) t2 :=
+  lcCheckStates_total t1 t2 hn1 hn g1 i1 g2 i2 validate
+
+/-- the same for mixed inputs, a stabilizer state and a graph (`lc_check(tableau, graph)`, modelled by `lcCheckStateGraph` and
+    compared exactly with the implementation): total, and after `(True, total)` the gate list maps the state exactly onto the graph
+    state -/
+theorem lc_check_on_state_and_graph_total_and_right (t1 : STab) (g2 : BMat) (hn1 : 0 < t1.n) (hr : g2.r = t1.n)
+    (hs2 : Simple g2.r g2.f) (g1 : t1.Good) (i1 : t1.Indep) (validate : Bool) :
+    lcCheckStateGraph t1 g2 validate = .ok (false, []) ∨
+      ∃ total, lcCheckStateGraph t1 g2 validate = .ok (true, total) ∧
+        STab.SpanEq (t1.runCircuit total) (graphSTab g2.r g2.f) :=
+  lcCheckStateGraph_total t1 g2 hn1 hr hs2 g1 i1 validate
+
+set_option maxRecDepth 100000 in
+/-- non-vacuity (kernel-checked): on the pair below the modelled `lc_check` returns `(True, [H 0, H 1, H 1])` — the gate list
+    the implementation returns -/
+theorem lc_check_on_tableaux_example :
+    (match lcCheckStates (graphSTab 2 fun i j => decide (i ≠ j))
+        { n := 2, row := fun i => if i = 0 then ⟨fun _ => false, fun _ => true, false, false⟩
+                                   else ⟨fun _ => true, fun _ => false, false, false⟩ } true with
+      | .ok (yes, total) => yes && total == [Gate.H 0, Gate.H 1, Gate.H 1]
+      | .error _ => false) = true := by
+  decide +kernel
+
+/-- the two-qubit graph state `|K₂⟩` and the state with generators `ZZ`, `XX` (a Hadamard on qubit 0 away) -/
+def bellS : STab := graphSTab 2 (fun i j => decide (i ≠ j))
+def ghzS : STab :=
+  { n := 2, row := fun i => if i = 0 then ⟨fun _ => false, fun _ => true, false, false⟩ else ⟨fun _ => true, fun _ => false, false, false⟩ }
+
+/-- do the models of `state_to_graph` and of `lc_check` on the two graphs answer as stated? -/
+def tableauAnswerIs (t1 t2 : STab) (b1 : String) (E1 : List Gate) (b2 : String) (E2 : List Gate)
+    (L0 : List (String × Nat)) : Bool :=
+  match S2G.stateToGraph t1, S2G.stateToGraph t2 with
+  | .ok (g1, G1), .ok (g2, G2) =>
+    match lcCheckR g1 g2 true with
+    | .ok (yes, L) => g1.bits == b1 && G1 == E1 && g2.bits == b2 && G2 == E2 && yes && L == L0
+    | .error _ => false
+  | _, _ => false
+
+set_option maxRecDepth 100000 in
+/-- non-vacuity of the hypotheses of the two theorems above (kernel-checked): `state_to_graph` returns on both states (the
+    second needs a Hadamard), both graphs are `K₂`, and `lc_check` on the graphs answers `(True, [H 0, H 1])` -/
+theorem tableau_example :
+    tableauAnswerIs bellS ghzS "0110" [] "0110" [Gate.H 1] [("H", 0), ("H", 1)] = true := by
   decide +kernel
 
 end Graphiq.C09
